@@ -298,9 +298,235 @@ def dispatcher_arms(s):
             final = (tgt, arg, line, guard)
     return P, arms, final
 
+_SRC_CACHE = {}
+
+def _function_ast(program, s):
+    """the syntax tree of one generated function, re-parsed from its line range (the summaries do not keep trees)"""
+    import os
+    path = os.path.join(program.pkgdir, 'pgns.py')
+    if path not in _SRC_CACHE:
+        _SRC_CACHE.clear()
+        _SRC_CACHE[path] = open(path, encoding='utf-8').read().split('\n')
+    lines = _SRC_CACHE[path]
+    src = '\n'.join(lines[s['line'] - 1: s['end']])
+    tree = ast.parse(src)
+    ast.increment_lineno(tree, s['line'] - 1)
+    return tree.body[0]
+
+def disp_semantic(program, grp, s):
+    """the dispatcher as a decision table.  Its guards consult the payload only through bit-field comparisons with constants (the utils helpers it
+    calls are inlined), so the payload space falls into finitely many classes: per bit field, each constant it is compared with (by the database or
+    by the dispatcher) and one value that is none of them.  Every class is evaluated (teval on the extracted terms) and compared with the database's
+    first-match rule.  -> ('equal', n) | ('diff', description) | ('unknown', why)"""
+    import itertools
+    from . import teval
+    from .rules_help import helpers
+    try:
+        fn = _function_ast(program, s)
+        ex = sym.SymExec(fn, inline=helpers(program))
+        ex.run()
+    except (sym.Unsupported, SyntaxError, IndexError) as u:
+        return ('unknown', f"dispatcher not walkable: {u}")
+    P = ('param', ex.params[0])
+    fields = {}
+    for d in grp.defs:
+        for f in d.match_fields:
+            fields.setdefault((f.bit_offset, f.bit_length), set()).add(f.match)
+    # atoms of the dispatcher: ((P >> o) & m) == c in any nesting; anything else that mentions the payload makes the table unsafe
+    def atoms(t, acc):
+        m = extract_match(t, P) if t[0] == 'cmp' else None
+        if m is not None:
+            acc.append(m); return
+        if t[0] == 'cmp' and t[1] in ('==', '!=') :
+            # (field expression) == const with the field expression given by a helper that was inlined: ((P >> o) & ((1 << n) - 1)) folds to the same shape
+            pass
+        for x in t[1:]:
+            if isinstance(x, tuple):
+                if x and isinstance(x[0], str):
+                    atoms(x, acc)
+                else:
+                    for y in x:
+                        if isinstance(y, tuple) and y and isinstance(y[0], str):
+                            atoms(y, acc)
+                        elif isinstance(y, tuple):
+                            for z in y:
+                                if isinstance(z, tuple) and z and isinstance(z[0], str):
+                                    atoms(z, acc)
+    acc = []
+    rets = [e for e in ex.events if e[0] == 'return']
+    if any(e[0] not in ('return', 'expr') for e in ex.events):
+        return ('unknown', 'the dispatcher does more than return')
+    for e in rets:
+        for gterm in e[1]:
+            atoms(gterm, acc)
+        atoms(e[2], acc)
+    # field reads without comparison (a local holding the field, used as a dictionary key): (P >> o) & m
+    def reads(t, out):
+        if t[0] == 'binop' and t[1] == '&':
+            for m_, y in ((t[3], t[2]), (t[2], t[3])):
+                if sym.is_const(m_) and isinstance(m_[1], int) and m_[1] > 0 and (m_[1] + 1) & m_[1] == 0:
+                    if y == P:
+                        out.add((0, m_[1].bit_length()))
+                    elif y[0] == 'binop' and y[1] == '>>' and y[2] == P and sym.is_const(y[3]):
+                        out.add((y[3][1], m_[1].bit_length()))
+        for x in t[1:]:
+            if isinstance(x, tuple):
+                if x and isinstance(x[0], str):
+                    reads(x, out)
+                else:
+                    for y in x:
+                        if isinstance(y, tuple) and y and isinstance(y[0], str):
+                            reads(y, out)
+                        elif isinstance(y, tuple):
+                            for z in y:
+                                if isinstance(z, tuple) and z and isinstance(z[0], str):
+                                    reads(z, out)
+    rd = set()
+    consts_in_fn = {n.value for n in ast.walk(fn) if isinstance(n, ast.Constant) and isinstance(n.value, int) and not isinstance(n.value, bool)}
+    for e in rets:
+        for gterm in e[1]:
+            reads(gterm, rd)
+        reads(e[2], rd)
+    # constraints: (offset, length, constant) from the database and from the dispatcher; reads without a constant (dictionary keys) take the
+    # integer literals of the function as candidate values
+    cons = []
+    for (o, ln), vals in fields.items():
+        for v in vals:
+            cons.append((o, ln, v))
+    atom_fields = set()
+    for (o, mk, c) in acc:
+        if mk <= 0 or (mk + 1) & mk != 0:
+            return ('unknown', f"comparison under a non-contiguous mask {mk:#x}")
+        cons.append((o, mk.bit_length(), c))
+        atom_fields.add((o, mk.bit_length()))
+    for (o, n) in rd:
+        if (o, n) not in atom_fields:
+            for c in consts_in_fn:
+                if 0 <= c < (1 << n):
+                    cons.append((o, n, c))
+        fields.setdefault((o, n), set())
+    # disjoint bit segments
+    cuts = sorted({o for o, ln, _ in cons} | {o + ln for o, ln, _ in cons} | {o for o, ln in fields} | {o + ln for o, ln in fields})
+    segs = [(a_, b_) for a_, b_ in zip(cuts, cuts[1:]) if any(o <= a_ and b_ <= o + ln for o, ln in list(fields) + [(o2, l2) for o2, l2, _ in cons])]
+    seg_vals = []
+    for (a_, b_) in segs:
+        w = b_ - a_
+        vs = set()
+        for o, ln, c in cons:
+            if o <= a_ and b_ <= o + ln:
+                vs.add((c >> (a_ - o)) & ((1 << w) - 1))
+        other = next((v for v in range(1 << w) if v not in vs), None) if len(vs) < (1 << w) else None
+        seg_vals.append((sorted(vs), other))
+    def compose(choice):
+        raw = 0
+        for (a_, b_), v in zip(segs, choice):
+            raw |= v << a_
+        return raw
+    def field_vals(raw):
+        return {(o, ln): (raw >> o) & ((1 << ln) - 1) for (o, ln) in fields}
+    total = 1
+    for vs, other in seg_vals:
+        total *= len(vs) + (1 if other is not None else 0)
+    payloads = []
+    if total <= 20000:
+        for combo in itertools.product(*[vs + ([other] if other is not None else []) for vs, other in seg_vals]):
+            payloads.append(compose(combo))
+    else:
+        # centres: one payload per database definition (its match fields set, every other segment at a value nobody compares with), then every
+        # single-segment deviation from a centre, and every pair of centres merged (the later definition's fields laid over the earlier one's)
+        def centre(d, base=None):
+            ch = [other if other is not None else vs[0] for vs, other in seg_vals] if base is None else list(base)
+            for f in d.match_fields:
+                for i, (a_, b_) in enumerate(segs):
+                    if f.bit_offset <= a_ and b_ <= f.bit_offset + f.bit_length:
+                        ch[i] = (f.match >> (a_ - f.bit_offset)) & ((1 << (b_ - a_)) - 1)
+            return ch
+        centres = [centre(d) for d in grp.defs]
+        centres.append([other if other is not None else vs[0] for vs, other in seg_vals])
+        seenp = set()
+        for ch in centres:
+            seenp.add(tuple(ch))
+            for i, (vs, other) in enumerate(seg_vals):
+                for v in vs + ([other] if other is not None else []):
+                    c2 = list(ch); c2[i] = v
+                    seenp.add(tuple(c2))
+        for d in grp.defs:
+            for e_ in grp.defs:
+                if d is not e_:
+                    seenp.add(tuple(centre(e_, centre(d))))
+        payloads = [compose(c) for c in seenp]
+        if len(payloads) > 200000:
+            return ('unknown', f"{len(payloads)} payload classes")
+    def expected(vals):
+        for d in grp.defs:
+            if d.fallback:
+                continue
+            okd = True
+            for f in d.match_fields:
+                if vals[(f.bit_offset, f.bit_length)] != f.match:
+                    okd = False; break
+            if okd:
+                return decoder_name(d)
+        return decoder_name(grp.fallback) if grp.fallback else None
+    class FN:
+        def __init__(self, name): self.name = name
+        def __eq__(self, o): return isinstance(o, FN) and o.name == self.name
+        def __hash__(self): return hash(self.name)
+    class Names(dict):
+        def __contains__(self, k): return isinstance(k, str) and k.startswith('decode_pgn_')
+        def __getitem__(self, k): return FN(k)
+    n = 0
+    for raw in payloads:
+        vals = field_vals(raw)
+        def calls(evf, t, raw=raw):
+            f = t[1]
+            try:
+                fv = evf(f, model)
+            except teval.EvalUnknown:
+                raise
+            if isinstance(fv, FN):
+                args = [evf(a, model) for a in t[2]]
+                return ('CALLED', fv.name, tuple(args))
+            raise teval.EvalUnknown(show(t)[:80])
+        model = teval.Model(params={ex.params[0]: raw}, names=Names({'$': 0}), calls=calls)
+        try:
+            i, e = teval.first_true(ex.events, model)
+            if e is None:
+                got = ('fall',)
+            else:
+                v = teval.ev(e[2], model)
+                got = v
+        except teval.EvalUnknown as u:
+            return ('unknown', f"not evaluable: {u}")
+        except Exception as u:
+            return ('unknown', f"{type(u).__name__}: {u}")
+        want = expected(vals)
+        if want is None:
+            okv = got is None
+        else:
+            okv = isinstance(got, tuple) and got[:2] == ('CALLED', want) and got[2] == (raw,)
+        n += 1
+        if not okv:
+            desc = ', '.join(f"bits {o}..{o + ln - 1} = {v}" for (o, ln), v in sorted(vals.items()))
+            gd = got[1] if isinstance(got, tuple) and got and got[0] == 'CALLED' else got
+            return ('diff', f"payload with {desc}: database selects {want}, the dispatcher selects {gd}")
+    return ('equal', n)
+
+class _Pending:
+    """collects the structural obligations of one dispatcher so that they can be dropped when the decision table proves the dispatcher right"""
+    def __init__(self):
+        self.items = []
+    def check(self, cond, rule, inst, **kw):
+        self.items.append((bool(cond), rule, inst, kw)); return cond
+    def violation(self, rule, inst, **kw):
+        self.items.append((False, rule, inst, kw))
+    def ok(self, rule, inst, **kw):
+        self.items.append((True, rule, inst, kw))
+
 def disp(chk, program, rule='DISP'):
     db, g = program.db, program.gen
     narms = 0; ncmp = 0; ndisp = 0
+    real_chk = chk
     for pgn, grp in db.groups.items():
         if not grp.complex:
             continue
@@ -315,6 +541,7 @@ def disp(chk, program, rule='DISP'):
             continue
         P, arms, final = dispatcher_arms(s)
         exp_arms = [d for d in grp.defs if not d.fallback]
+        chk = _Pending()
         chk.check(len(arms) == len(exp_arms), rule, f"{fname}::arm-count", file=PG, line=s['line'], func=fname,
                   expected=len(exp_arms), found=len(arms))
         # every event must be a return; nothing else may happen in a dispatcher
@@ -366,6 +593,30 @@ def disp(chk, program, rule='DISP'):
             tgt, arg, line, guard = final
             okf = (tgt == expf) and (fb is None or tuple(arg) == (P,))
             chk.check(okf, rule, f"{fname}::final", file=PG, line=line, func=fname, expected=expf or 'None', found=str(tgt))
+        pend, chk = chk, real_chk
+        if all(okk for okk, *_ in pend.items):
+            for okk, r_, inst_, kw in pend.items:
+                chk.ok(r_, inst_, **kw)
+            continue
+        # the structural reading found a difference: is it a difference in behaviour?  the decision table decides
+        sem = disp_semantic(program, grp, s)
+        if sem[0] == 'equal':
+            for okk, r_, inst_, kw in pend.items:
+                if okk:
+                    chk.ok(r_, inst_, **kw)
+            chk.ok(rule, f"{fname}::decision-table", file=PG, line=s['line'], func=fname, detail=f"{sem[1]} payload classes select the database's definition (another spelling of the same dispatcher)")
+            narms += max(0, len(exp_arms) - min(len(arms), len(exp_arms)))      # arms the table covered although the structural reading did not see them
+        elif sem[0] == 'diff':
+            for okk, r_, inst_, kw in pend.items:
+                if not okk:
+                    kw = dict(kw); kw['detail'] = (kw.get('detail', '') + ' | witness: ' + sem[1]).strip(' |')
+                (chk.ok if okk else chk.violation)(r_, inst_, **kw)
+        else:
+            for okk, r_, inst_, kw in pend.items:
+                if okk:
+                    chk.ok(r_, inst_, **kw)
+            chk.unknown(rule, fname, f"dispatcher not of the recognised shape and its decision table could not be built: {sem[1]}", PG, s['line'])
+    chk = real_chk
     chk.unit('dispatchers', ndisp); chk.unit('arms', narms); chk.unit('comparisons', ncmp)
     return ndisp, narms, ncmp
 
